@@ -18,7 +18,7 @@ MISMATCH_IS_FAILURE = False
 
 def gen_cases(tier, rng):
     schema = json.load(open(SCHEMA))
-    per = 40 if tier == "quick" else 400
+    per = 40 if tier == "quick" else 4000
     cases = []
     for key, ent in schema["responses"].items():
         r = rng.fork("view/" + key)
